@@ -389,6 +389,7 @@ while i < len(lines):
             c = self._rand_e4(rng)
             cand.append(c); self._e4_cat[c] = 'M:random:nv=%s' % c.split()[1]
         cp = [l.strip() for l in open(os.path.join(VERIF, 'replay', 'corpus', 'C05.cases')) if l.startswith('M ')] if os.path.exists(os.path.join(VERIF, 'replay', 'corpus', 'C05.cases')) else []
+        rng.shuffle(cand)          # runaway cases of a broken tree (4 s CPU each) spread over the shards instead of queueing in one
         return self._e4_filter(list(dict.fromkeys(cp + cand)))
 
     def _rand_e4(self, rng):
